@@ -161,7 +161,7 @@ func CheckC08(c *Ctx) int {
 		c.ModelCheck("Bolt", "MC_Fault_deep.cfg", 16, 60*time.Minute)
 	}
 	scs := faultScenarios("c08f", c.Pick(14, 160), c.Seed, false)
-	o := RunScenarios(scs, ValidateSpec{KV: true, Bolt: true}, filepath.Join(c.WorkDir, "runs"), 14, 8, 10*time.Minute)
+	o := RunScenarios(scs, ValidateSpec{KV: true, Bolt: true}, filepath.Join(c.WorkDir, "runs"), 14, 8, c.ChildTimeout())
 	c.Absorb(o)
 	c.Cov["evaluations"] = len(scs)
 	c.Cov["distinct_nontrivial"] = DistinctNontrivial(o.PerScenario, func(m map[string]int) bool { return m["fault_hit"] > 0 })
